@@ -610,6 +610,10 @@ namespace
 	      && (tag != DW_TAG_base_type
 		  || ! dwarf_hasattr_integrate (&type_die, DW_AT_encoding)))
 	    {
+	      // The error word of libdw is sticky: forget what earlier
+	      // calls left there, or a type that simply has no name is
+	      // taken for a failure.
+	      dwarf_errno ();
 	      char const *name = dwarf_diename (&type_die);
 	      if (name == nullptr)
 		{
